@@ -5,6 +5,9 @@ Import ListNotations.
 From SU Require Import F32 F32Lemmas.
 From SU.Model Require Import PhaseAcc Lfo.
 From SU.Proofs Require Import LfoProofs SineProofs.
+From SU.Model Require Import Utils.
+From Flocq Require Import Core.
+From SU.Proofs Require Import SharedProofs.
 Open Scope R_scope.
 
 (** between consecutive ticks the sine changes by at most 2*pi*1.002 times the phase step
@@ -33,6 +36,15 @@ Theorem C12_wrap : forall l, pa_acc l = 16777215%Z -> pa_inc l = 1%Z ->
   Rabs (R32 (lfo_get l' Sine) - R32 (lfo_get l Sine)) <= / 1000000.
 Proof. exact sine_wrap. Qed.
 
+(** the shared interpolation helper on table values in [-1,1] and a fraction in [0,1]: at most 4*2^-24 from the real interpolant *)
+Theorem C12_linear_interp_error : forall y0 y1 fr : f32, fin y0 -> fin y1 -> fin fr ->
+  Rabs (R32 y0) <= 1 -> Rabs (R32 y1) <= 1 -> 0 <= R32 fr <= 1 ->
+  fin (linear_interp y0 y1 fr) /\
+  Rabs (R32 (linear_interp y0 y1 fr) - (R32 y0 + (R32 y1 - R32 y0) * R32 fr))
+    <= 4 * bpow radix2 (-24).
+Proof. exact linear_interp_error. Qed.
+
 Print Assumptions C12_sine_continuous.
 Print Assumptions C12_triangle_continuous.
 Print Assumptions C12_wrap.
+Print Assumptions C12_linear_interp_error.
